@@ -116,6 +116,8 @@ def _work(lines):
             r.setdefault("key", k)
             r.setdefault("kids", kids)
             r.setdefault("sig", term_sig(rec["t"]))
+            r.setdefault("head", term_sig(rec["t"], 0))
+            r.setdefault("kidheads", "|".join(term_sig(c, 0) for c in children(rec["t"])))
             r.setdefault("tag", rec.get("tag"))
             if r["status"] in ("mismatch", "machinery"):
                 r.setdefault("term", rec["t"])
